@@ -144,6 +144,63 @@ func discoverLifecycle(c *Ctx) (*lifecycle, string) {
 						lc.release = m
 					}
 				}
+			case *ast.AssignStmt:
+				// the same written out: f += 1, f = f + 1, f = f - 1, or f = local with local := f - 1
+				if len(x.Lhs) != 1 || len(x.Rhs) != 1 {
+					return true
+				}
+				f := fieldOf(info, x.Lhs[0], lc.ctxType)
+				if f == nil {
+					return true
+				}
+				if b, ok := f.Type().Underlying().(*types.Basic); !ok || b.Info()&types.IsInteger == 0 {
+					return true
+				}
+				dir := 0
+				var delta func(e ast.Expr, depth int) int
+				delta = func(e ast.Expr, depth int) int {
+					e = unparen(e)
+					if be, ok := e.(*ast.BinaryExpr); ok && (be.Op == token.ADD || be.Op == token.SUB) {
+						if fieldOf(info, be.X, lc.ctxType) == f {
+							if k, ok := constInt(info, be.Y); ok && k > 0 {
+								if be.Op == token.ADD {
+									return 1
+								}
+								return -1
+							}
+						}
+					}
+					if id := identOf(e); id != nil && depth < 2 {
+						// a local defined once from such an expression
+						obj := info.Uses[id]
+						res := 0
+						ast.Inspect(fd.Body, func(m ast.Node) bool {
+							if as, ok := m.(*ast.AssignStmt); ok && len(as.Lhs) == len(as.Rhs) {
+								for i, l := range as.Lhs {
+									if lid := identOf(l); lid != nil && info.ObjectOf(lid) == obj && obj != nil {
+										res = delta(as.Rhs[i], depth+1)
+									}
+								}
+							}
+							return true
+						})
+						return res
+					}
+					return 0
+				}
+				switch x.Tok {
+				case token.ADD_ASSIGN:
+					dir = 1
+				case token.SUB_ASSIGN:
+					dir = -1
+				case token.ASSIGN:
+					dir = delta(x.Rhs[0], 0)
+				}
+				if dir > 0 && retErr && sig.Params().Len() == 0 {
+					lc.admit, lc.counter = m, f
+				} else if dir < 0 && sig.Results().Len() == 0 {
+					lc.release = m
+				}
 			case *ast.CallExpr:
 				if _, typ, meth, ok := syncMethod(info, x); ok && typ == "WaitGroup" {
 					sel := x.Fun.(*ast.SelectorExpr)
@@ -168,19 +225,32 @@ func discoverLifecycle(c *Ctx) (*lifecycle, string) {
 	// flags: bool fields of the context read in conditions of the admission method
 	fd := c.Decl(lc.admit)
 	seen := map[*types.Var]bool{}
-	ast.Inspect(fd.Body, func(n ast.Node) bool {
-		if ifs, ok := n.(*ast.IfStmt); ok {
-			ast.Inspect(ifs.Cond, func(m ast.Node) bool {
-				if e, ok := m.(ast.Expr); ok {
-					if f := fieldOf(info, e, lc.ctxType); f != nil && !seen[f] {
-						if b, ok := f.Type().Underlying().(*types.Basic); ok && b.Kind() == types.Bool || isAtomicType(f.Type()) {
-							seen[f] = true
-							lc.flags = append(lc.flags, f)
-						}
+	noteFlags := func(cond ast.Node) {
+		ast.Inspect(cond, func(m ast.Node) bool {
+			if e, ok := m.(ast.Expr); ok {
+				if f := fieldOf(info, e, lc.ctxType); f != nil && !seen[f] {
+					if b, ok := f.Type().Underlying().(*types.Basic); ok && b.Kind() == types.Bool || isAtomicType(f.Type()) {
+						seen[f] = true
+						lc.flags = append(lc.flags, f)
 					}
 				}
-				return true
-			})
+			}
+			return true
+		})
+	}
+	ast.Inspect(fd.Body, func(n ast.Node) bool {
+		switch x := n.(type) {
+		case *ast.IfStmt:
+			noteFlags(x.Cond)
+		case *ast.AssignStmt:
+			// the decision kept in a local: admitted := !ctx.closed
+			for _, rh := range x.Rhs {
+				if tv, ok := info.Types[rh]; ok {
+					if b, ok := tv.Type.Underlying().(*types.Basic); ok && b.Kind() == types.Bool {
+						noteFlags(rh)
+					}
+				}
+			}
 		}
 		return true
 	})
